@@ -375,7 +375,12 @@ def detectXMLEncoding(fp, log=None, includeDefault=True):  # noqa: C901
     if isinstance(head, bytes):
         # binary file object: keeps the byte values for BOM detection
         head = head.decode('latin-1')
-    (byte1, byte2, byte3, byte4) = tuple(map(ord, head))
+    try:
+        (byte1, byte2, byte3, byte4) = tuple(map(ord, head))
+    except ValueError:
+        # fewer than 4 characters; leave the file where it was
+        fp.seek(oldFP)
+        raise
 
     # try bom detection using 4 bytes, 3 bytes, or 2 bytes
     bomDetection = bomDict.get((byte1, byte2, byte3, byte4))
